@@ -50,6 +50,28 @@ type Engine struct {
 	globalsInit map[*types.Var]*ast.CompositeLit
 	curFx       *fctx
 	Debug       bool
+	heapIds     map[int]*Term // heap-id constant (by term id of the id constant) -> array term
+	heapIdOf    map[int]*Term // array term id -> heap-id constant
+}
+
+// heapID names an array term by an integer constant, so that spec functions over heaps (psum) do not take
+// array-sorted arguments (which would drag the solvers into extensionality reasoning).
+func (e *Engine) heapID(h *Term) *Term {
+	if e.heapIdOf == nil {
+		e.heapIdOf = map[int]*Term{}
+		e.heapIds = map[int]*Term{}
+	}
+	if id, ok := e.heapIdOf[h.id]; ok {
+		return id
+	}
+	id := e.ts.Var(fmt.Sprintf("hid%d", h.id), SInt)
+	e.heapIdOf[h.id] = id
+	e.heapIds[id.id] = h
+	return id
+}
+
+func (e *Engine) psumTerm(h, p, n *Term) *Term {
+	return e.ts.App("psum", SInt, e.heapID(h), p, n)
 }
 
 func NewEngine(p *Program) *Engine {
@@ -202,6 +224,10 @@ func (fx *fctx) assert(st *State, kind, detail string, goal *Term, n ast.Node, p
 
 // check asserts and then assumes the goal (so later obligations are independent of this one).
 func (fx *fctx) check(st *State, kind, detail string, goal *Term, n ast.Node, desc string) {
+	if fx.spec {
+		// specifications are not checked for definedness and must not add facts
+		return
+	}
 	fx.assert(st, kind, detail, goal, n, nil, desc)
 	st.assume(goal)
 }
